@@ -1,10 +1,15 @@
 """C05 — values cross the host boundary unchanged in both directions."""
+import glob
 import json
+import os
 import common
 
 PROPS = "RotoV.Props.C05"
 MODULES = ["RotoV.Model.BoundaryLayout", "RotoV.Model.Boundary", "RotoV.Lemmas.BoundaryArith", "RotoV.Lemmas.BoundaryPlace", "RotoV.Lemmas.BoundaryPinned",
            "RotoV.Lemmas.BoundaryLayout", "RotoV.Lemmas.BoundaryAbi", "RotoV.Lemmas.BoundaryValues"]
+# reads of host storage are copies: the store model of the LIR and its provenance check
+PROPS_STORE = "RotoV.Props.C05Store"
+MODULES_STORE = ["RotoV.Model.BoundaryStore", "RotoV.Lemmas.BoundaryStore"]
 
 
 def search(ctx):
@@ -19,8 +24,19 @@ def search(ctx):
 
 
 def run(ctx):
+    # replay files of an earlier run must not survive into this one
+    for f in glob.glob(os.path.join(common.VERIF, "evidence", "replays", "C05-*.json")):
+        os.remove(f)
     ctx.extract(["boundary"])
-    ctx.prove(PROPS, extra_modules=MODULES)
+    theorems, examples, axioms = [], 0, {}
+    for props, mods in ((PROPS, MODULES), (PROPS_STORE, MODULES_STORE)):
+        ctx.prove(props, extra_modules=mods)
+        theorems += ctx.coverage.get("theorems", [])
+        examples += ctx.coverage.get("nonvacuity_examples", 0)
+        axioms.update(ctx.coverage.get("axioms", {}))
+    ctx.coverage["theorems"] = theorems
+    ctx.coverage["nonvacuity_examples"] = examples
+    ctx.coverage["axioms"] = axioms
     if ctx.build_harness("c05"):
         ctx.harness("c05", ["run", ctx.seed, ctx.tier], timeout=3000)
     ctx.trusted += [
@@ -34,6 +50,11 @@ def run(ctx):
         "Layout::of::<T>() is the same on both sides for char, RotoString, IpAddr, Prefix, ErasedList (measured per run, "
         "arbitrary well-formed layouts in the theorems)",
         "the bodies of clone/drop of registered types and the list implementation are outside this property's model",
+        "store model (Props/C05Store): Rust code called from a script (registered functions, clone/drop/eq functions, list and "
+        "string operations) writes only through the pointers it is handed and returns no pointer into the host's cells "
+        "(Oracle.WellBehaved); heap objects with shared ownership that a host value points to (a List is a reference) are "
+        "not host cells in this model; the LIR the theorem is applied to is the hook's dump of the generated scripts, not of "
+        "every script",
     ]
     return ctx.finish(
         level="proof",
